@@ -201,3 +201,117 @@ def blob_meta_lookup(crate, L=3):
         return True
     _check_paths(ex, res, outs, per_path)
     return P.finish(ex, res, ["second candidate matched", "no match, ends in a marker", "no match, no marker", "load error"])
+
+
+def storage_read_glue(crate):
+    """C01: Storage::read_with_optional_meta and contains_with around get_latest_entry (latest_entry_fold): the answer has the
+    kind of the winning entry - Found is answered with the bytes loaded from THAT entry (Entry::load, whose audit C05
+    decides), Deleted with the marker's timestamp, NotFound as is; contains answers the same kind with the entry's own
+    timestamp; an error of the lookup or of the load is returned, never turned into NotFound."""
+    res = P.ObResult("storage_read_glue")
+    res.functions = ["Storage::read_with_optional_meta (async body)", "Storage::contains_with (async body)", "ReadResult::map"]
+    res.bounds = "one call each; every outcome of get_latest_entry / Entry::load"
+    RR = crate.enums["ReadResult"]
+    tq = ts_ = 0
+    for which in ("read_with_optional_meta", "contains_with"):
+        ex = P.mk_executor(crate, cap=2, loop_bound=3, inline=[r"^ReadResult::map$"], havoc=[r"^Record::into_data$", r"^Entry::timestamp$", r"^(bytes::)?Bytes::len$"])
+        st = State()
+        sc = st.new_cell(Obj("storage::core::Storage<K>"))
+        kind = z3.BitVec("latest_kind", 64)
+        st.pc.append(z3.ULE(kind, BV64(2)))
+        del_ts = z3.BitVec("marker_ts", 64)
+
+        def hook(ex_, st_, name, fargs, out_ty, dty):
+            if name.endswith("get_latest_entry"):
+                r = Obj(out_ty)
+                r.discr = Sym(z3.If(z3.Bool("lookup_ok"), BV64(0), BV64(1)), "isize")
+                rr = Obj(S.generic_args(out_ty)[0])
+                rr.discr = Sym(kind, "isize")
+                e = Obj("blob::entry::Entry"); e.fields[("ghost", "id")] = Sym(BV64(31), "u64")
+                rr.fields[("Found", 0)] = e
+                t = Obj("storage::core::BlobRecordTimestamp"); t.fields[(None, 0)] = Sym(del_ts, "u64")
+                rr.fields[("Deleted", 0)] = t
+                r.fields[("Ok", 0)] = rr
+                st_.events.append(("await", name, fargs, r))
+                return [(S.poll_ready(dty, r), None)]
+            if name.endswith("Entry::load"):
+                r = ex_.fresh(out_ty, st_, "loaded")
+                st_.events.append(("await", name, fargs, r))
+                return [(S.poll_ready(dty, r), None)]
+            return None
+        ex.await_hook = hook
+
+        def call_hook(ex_, st_, cname, args, dty):
+            if cname == "Record::into_data":
+                b = Obj(dty); b.fields[("ghost", "data_of")] = args[0]
+                st_.events.append(("call", cname, args, b))
+                return [(b, None)]
+            if cname == "Entry::timestamp":
+                e = S.deref_val(ex_, st_, args[0])
+                t = Obj(dty); t.fields[(None, 0)] = Sym(z3.BitVec("entry_ts", 64), "u64")
+                st_.events.append(("call", cname, [e], t))
+                return [(t, None)]
+            return None
+        ex.call_hook = call_hook
+        fn = crate.method("Storage", which)
+        key = Ref(st.new_cell(Obj("K")), (), False, "&K")
+        outs = P.drive_async(ex, st, fn, [Ref(sc, (), False, "&storage::core::Storage<K>"), key, Obj("std::option::Option<&record::record::Meta>")])
+        res.paths += len(outs)
+
+        def per_path(o, isok, payload):
+            evs = P.events_of(o)
+            look = [e for e in evs if e[0] == "await" and e[1].endswith("get_latest_entry")]
+            if len(look) != 1:
+                res.status = "violated"; res.detail = "%s: %d lookups" % (which, len(look)); return False
+            l_ok = z3.Bool("lookup_ok")
+            if not P.prove(ex, res, o, z3.Implies(z3.Not(l_ok), z3.Not(isok)), "%s: a failed lookup fails the call" % which):
+                return False
+            loads = [e for e in evs if e[0] == "await" and e[1].endswith("Entry::load")]
+            out = payload.fields.get(("Ok", 0)) if isinstance(payload, Obj) else None
+            if out is None:
+                return True
+            okind = ex.get_discr(o, out).t
+            if not P.prove(ex, res, o, z3.Implies(isok, okind == kind), "%s: the answer has the kind of the winning entry" % which):
+                return False
+            if which == "read_with_optional_meta":
+                if loads:
+                    ent = S.deref_val(ex, o, loads[0][2][0]) if isinstance(loads[0][2][0], Ref) else loads[0][2][0]
+                    if not (isinstance(ent, Obj) and ("ghost", "id") in ent.fields):
+                        res.status = "violated"; res.detail = "bytes are loaded from another entry than the winner"; return False
+                    ld_ok = ex.get_discr(o, loads[0][3]).t == BV64(0)
+                    if not P.prove(ex, res, o, z3.Implies(z3.Not(ld_ok), z3.Not(isok)), "read: a failed load fails the call"):
+                        return False
+                if not P.prove(ex, res, o, z3.Implies(z3.And(isok, kind == BV64(RR["Found"])), z3.BoolVal(len(loads) == 1)), "read: Found => the entry's bytes were loaded"):
+                    return False
+                if ex.feasible(o, z3.And(isok, kind == BV64(RR["Found"]))):
+                    b = out.fields.get(("Found", 0))
+                    src = b.fields.get(("ghost", "data_of")) if isinstance(b, Obj) else None
+                    rec = loads[0][3].fields.get(("Ok", 0)) if loads else None
+                    if src is None or rec is None or getattr(src, "oid", 1) != getattr(rec, "oid", 2):
+                        res.status = "violated"; res.detail = "read: the bytes returned are not the data of the record that was loaded"; return False
+                    P.cover(ex, res, o, z3.And(isok, kind == BV64(RR["Found"])), "read: found")
+            else:
+                if ex.feasible(o, z3.And(isok, kind == BV64(RR["Found"]))):
+                    t = out.fields.get(("Found", 0))
+                    tv = t.fields.get((None, 0)) if isinstance(t, Obj) else None
+                    if tv is None or not P.prove(ex, res, o, z3.Implies(z3.And(isok, kind == BV64(RR["Found"])), tv.t == z3.BitVec("entry_ts", 64)), "contains: Found carries the entry's timestamp"):
+                        if res.status == "holds":
+                            res.status = "violated"; res.detail = "contains: Found without the entry's timestamp"
+                        return False
+                    P.cover(ex, res, o, z3.And(isok, kind == BV64(RR["Found"])), "contains: found")
+            if ex.feasible(o, z3.And(isok, kind == BV64(RR["Deleted"]))):
+                t = out.fields.get(("Deleted", 0))
+                tv = t.fields.get((None, 0)) if isinstance(t, Obj) else None
+                if tv is None or not P.prove(ex, res, o, z3.Implies(z3.And(isok, kind == BV64(RR["Deleted"])), tv.t == del_ts), "%s: Deleted carries the marker's timestamp" % which):
+                    if res.status == "holds":
+                        res.status = "violated"; res.detail = "%s: Deleted without the marker's timestamp" % which
+                    return False
+                P.cover(ex, res, o, z3.And(isok, kind == BV64(RR["Deleted"])), "%s: deleted" % which.split("_")[0])
+            P.cover(ex, res, o, z3.And(isok, kind == BV64(RR["NotFound"])), "%s: not found" % which.split("_")[0])
+            return True
+        if not _check_paths(ex, res, outs, per_path):
+            break
+        tq += ex.queries; ts_ += ex.solver_s
+    r = P.finish(ex, res, ["read: found", "read: deleted", "read: not found", "contains: found", "contains: deleted", "contains: not found"])
+    r.queries, r.solver_s = max(tq, r.queries), max(ts_, r.solver_s)
+    return r
